@@ -255,6 +255,14 @@ where
                         continue;
                     }
                     let revealed_idx: Vec<usize> = (0..n).filter(|i| !u.contains(i)).collect();
+                    // without a trusted commitment: the first of several revealed attributes has the value 0
+                    let msgs = {
+                        let mut m = msgs.clone();
+                        if !trusted && revealed_idx.len() >= 2 {
+                            m[revealed_idx[0]].value = Integer::from(0);
+                        }
+                        m
+                    };
                     let revealed: Vec<CL03Message> = revealed_idx.iter().map(|&i| msgs[i].clone()).collect();
                     let run = guard(|| {
                         let commitment = Commitment::<CL03<C>>::commit_with_pk(&msgs, &ks.pk, &ks.bases, Some(&u));
